@@ -29,6 +29,7 @@ RELABEL = {
     'string_skipping': {'C09': ['C09', 'C08'], '*': ['C08']}, 'memo_ws_from_noskip': {'C09': ['C09', 'C05'], '*': ['C05']},
     'position_closure': {'*': ['C09', 'C08']}, 'string_override': {'*': ['C02']}, 'optional_nested': {'C02': ['C02'], 'C10': ['C10'], '*': ['C01']},
     'include_fieldless_check': {'*': ['C13']}, 'include_chain': {'*': ['C13']},
+    'leftrec_memo_inner': {'C06': ['C06'], 'C10': ['C10'], '*': ['C07', 'C05']},
     'enum_field': {'*': ['C02']}, 'boxed': {'*': ['C02']}, 'box_merge': {'*': ['C02']}, 'override_simple': {'*': ['C02']}, 'override_enum': {'*': ['C02']},
 }
 # driver-level verdicts (reject / compile / same_as) and compile errors are attributed to:
@@ -47,8 +48,8 @@ def outputs_of(name, sdef):
         return {STATIC_PROP.get(name, 'C03')}
     m = RELABEL.get(name)
     if m is None:
-        return set(sdef.props) | {'C03', 'C04'}
-    out = {p for v in m.values() for p in v} | {'C03', 'C04'}
+        return set(sdef.props) | {'C03', 'C04', 'C12'}
+    out = {p for v in m.values() for p in v} | {'C03', 'C04', 'C12'}
     return out
 
 def relabel(name, label):
@@ -208,7 +209,13 @@ def t_part(ctx, prop):
             continue
         if st is None: continue
         if s.expect != 'ok' or st['verdict'] == 'violation':
-            if prop != STATIC_PROP.get(n, 'C03') and not (st['verdict'] == 'violation' and s.expect == 'ok' and prop == 'C03'):
+            rejected_ok_schema = st['verdict'] == 'violation' and s.expect == 'ok'
+            parse_err = 'parse error' in st.get('driver', '')
+            if rejected_ok_schema:
+                # a grammar that follows the syntax reference was refused: by the front end (C12) or by the generator (C03);
+                # either way the schema's own properties cannot be decided and report it too
+                if not (prop == ('C12' if parse_err else 'C03') or prop in s.props): continue
+            elif prop != STATIC_PROP.get(n, 'C03'):
                 continue
             ok = st['verdict'] in ('ok', 'compile-pending', 'harness')
             out['static'].append({'schema': n, 'expect': s.expect, 'driver': st['driver'][:200], 'ok': ok})
@@ -224,6 +231,10 @@ def t_part(ctx, prop):
         out['compiled_with_type_assertions'] = [n for n in run]
         out['samples'].append({'schema': 'seq_choice', 'assertions': ['let _: &Vec<A> = &v.a;', 'let _: &Option<B> = &v.b;']})
         run = [n for n in run if 'C03' in SCHEMAS[n].props and n in ('enum_field', 'boxed', 'box_merge', 'override_simple', 'override_enum')]
+    if prop == 'C12':
+        # for the other schemas only the front end's verdict on their grammar text matters (decided in prepare())
+        out['grammar_texts_read_by_the_front_end'] = len(run)
+        run = [n for n in run if 'C12' in SCHEMAS[n].props or any('C12' in v for v in RELABEL.get(n, {}).values())]
     if prop == 'C04':
         # every schema is run (a panic of the generated glue is reported under C04), at a small bound
         cap = min(cap, 3e6)
